@@ -155,9 +155,9 @@ impl<T> Drop for MutexGuard<'_, T> {
     fn drop(&mut self) {
         self.guard = None; // unlock first.
         if let Some((s, id)) = self.sched.take() {
-            if !std::thread::panicking() {
-                s.released(id);
-            }
+            // Also while unwinding: a scheduler that was never told about the release would
+            // keep threads blocked on this mutex parked for ever.
+            s.released(id);
         }
     }
 }
